@@ -17,7 +17,7 @@ Import ListNotations.
 From BWMemo Require Import Memo MemoProofs MemoStepProofs KeyProofs Concrete.
 
 (* which key function the current tree has (the correspondence run of checks/c19.py evaluates the model with key_cur) *)
-Theorem C19_model_follows_tree : forall arg : Type, @key_cur arg = @key_v0 arg.
+Theorem C19_model_follows_tree : forall arg : Type, @key_cur arg = @key_v1 arg.
 Proof. reflexivity. Qed.
 Print Assumptions C19_model_follows_tree.
 
